@@ -377,6 +377,8 @@ def emit(n, cx):
         path, args = n[1], [emit(a, cx) for a in n[2]]
         if path == "Some" and len(args) == 1:
             return "(Some %s)" % args[0]
+        if path in ("u64::min", "usize::min") and len(args) == 2:
+            return "(N.min %s %s)" % (args[0], args[1])
         f = cx.calls.get(path) or FUNCS.get(path)
         if f is None:
             raise TranslateError("unknown function %s" % path)
@@ -386,6 +388,11 @@ def emit(n, cx):
         rk = key(recv)
         if rk is not None and ("%s.%s" % (rk, name)) in cx.calls:
             return "(%s %s)" % (cx.calls["%s.%s" % (rk, name)], " ".join(emit(a, cx) for a in args))
+        if (name == "unwrap_or" and len(args) == 1 and args[0] == ("num", "0") and recv[0] == "method"
+                and recv[2] == "checked_div" and len(recv[3]) == 1):
+            # a.checked_div(b).unwrap_or(0) on unsigned integers
+            num, den = emit(recv[1], cx), emit(recv[3][0], cx)
+            return "(if N.eqb %s 0 then 0%%N else N.div %s %s)" % (den, num, den)
         r = emit(recv, cx)
         a = [emit(x, cx) for x in args]
         if name == "powi":
